@@ -242,3 +242,25 @@ Proof.
   apply Forall_map. eapply Forall_impl; [|exact Hall].
   intros im (Hwf & Hc & <-). now apply qcow2_layer_ok.
 Qed.
+
+(* ... and over a base image that is SHORTER than the overlays (an overlay created larger than its backing file): beyond
+   the end of the base the chain reads zeros; what the overlays hold there stays where it is *)
+Theorem qcow2_short_base_chain size (tops : list Model.Qcow2.image) (base : Model.Qcow2.image) :
+  Forall (fun im => Proofs.Qcow2.wf_image im /\
+                    Spec.Qcow2.conformant (Model.Qcow2.spec_of im) (Model.Qcow2.size_of im) /\
+                    Model.Qcow2.size_of im = size) tops ->
+  Proofs.Qcow2.wf_image base -> Spec.Qcow2.conformant (Model.Qcow2.spec_of base) (Model.Qcow2.size_of base) ->
+  0 <= Model.Qcow2.size_of base <= size ->
+  let ls := map qcow2_layer tops ++ [clip_layer (Model.Qcow2.size_of base) (qcow2_layer base)] in
+  forall off n, 0 <= off -> 0 <= n -> off + n <= size ->
+  chain_read ls 0 off n = Ok (map (chain_src ls 0) (zseq off n)).
+Proof.
+  intros Hall Hwf Hc Hsz ls off n Hoff Hn Hfit.
+  apply (chain_read_correct size 1); try assumption; try apply Z.mod_1_r.
+  apply Forall_app. split.
+  - apply Forall_map. eapply Forall_impl; [|exact Hall].
+    intros im (Hwf' & Hc' & <-). now apply qcow2_layer_ok.
+  - constructor; [|constructor].
+    apply clip_layer_ok; [lia|assumption|apply Z.mod_1_r|now apply qcow2_layer_ok].
+Qed.
+
